@@ -241,7 +241,7 @@ def run(ctx, anchors=None):
             ctx.inst(ok, "R17.3", key, ext.loc(n), "`%s` is dominated by %s on %s that rejects" % (astq.estr(n), kind, dtxt),
                      "`%s` (CScriptNum::operator%s -> int64 %s) is reached without %s of %s: %s" %
                      (astq.estr(n), op, op, kind, dtxt, "division by zero traps (SIGFPE)" if TRAP[op] == "zero" else "shift count out of range is undefined"))
-    ctx.floor("R17.3", ncalls, 4, "trap-capable CScriptNum operator calls in StepExtended")
+    ctx.floor("R17.3", ncalls, 3, "trap-capable CScriptNum operator calls in StepExtended")
 
     # ---- R17.4 gate position and control
     cfg = opstep.cfg()
@@ -457,11 +457,32 @@ def run(ctx, anchors=None):
         if sn != "OP_CAT":
             ctx.inst(noeq == 0, "R17.8", "equal-lengths:" + sn, ext.loc(), "%s succeeds only on paths that decided size(x1) == size(x2)" % sn,
                      "%s can succeed without having decided that both operands have the same length (%d successful path(s)): operands of unequal length must fail with a script error" % (sn, noeq))
+    # ---- R17.9 products and left shifts are computed in 64 bits from operands of up to 5 bytes: the successful path must have
+    # decided that the result did not overflow (an overflow-checking builtin decided false), or decode its operands with at most
+    # 4 bytes (MUL) so that no product can overflow.
+    ctx.rule("R17.9", "OP_MUL and OP_LSHIFT cannot succeed with a wrapped 64-bit result")
+    for sn in ("OP_MUL", "OP_LSHIFT"):
+        if sn not in {x.split("::")[-1] for x in handled}:
+            continue
+        succ = [o for o in explore_op(sn) if o.ret == symx.C(1)]
+        ctx.site(len(succ))
+        bad9 = 0
+        for o in succ:
+            checked = any((not v) and any(isinstance(y, tuple) and y[0] == "ap" and "overflow" in str(y[1]) for y in symx.subterms(t)) for (t, v) in o.conds)
+            sizes = [y[-1][1] for e in o.events for t in e.terms for y in symx.subterms(t)
+                     if isinstance(y, tuple) and y[:2] == ("ap", "ctor:CScriptNum") and len(y) == 5 and symx.is_const(y[-1])]
+            small = sn == "OP_MUL" and bool(sizes) and max(sizes) <= 4
+            if not (checked or small):
+                bad9 += 1
+        ctx.inst(bad9 == 0, "R17.9", "no-wrapped-result:" + sn, ext.loc(), "%s succeeds only after an overflow check (or with operands of at most 4 bytes)" % sn,
+                 "%s can succeed without any overflow test although its operands may have 5 bytes: `0x0000000001 0x0000000001 %s` (2^32 x 2^32, or 1 << 63) "
+                 "leaves a wrapped value on the stack instead of failing" % (sn, sn))
     ctx.extra["gate_labels"] = sorted(x.split("::")[-1] for x in gate_labels)
     ctx.extra["handled_labels"] = sorted(x.split("::")[-1] for x in handled)
 
 
 MUTANTS = [
+    dict(name="mul-overflow-unchecked", file="debugger/interpreter.cpp", regex=True, find=r"            case OP_MUL:\n.*?                break;\n", replace="            case OP_MUL: num1 = num1 * num2; break;\n", expect=["R17.9:no-wrapped-result:OP_MUL"]),
     dict(name="cat-drops-operand-when-empty", file="debugger/interpreter.cpp", find="        vch1.insert(vch1.end(), vch2.begin(), vch2.end());", replace="        if (!vch1.empty() && !vch2.empty()) vch1.insert(vch1.end(), vch2.begin(), vch2.end());", expect=["R17.7:both-operands:OP_CAT"]),
     dict(name="cat-result-is-second-operand-only", file="debugger/interpreter.cpp", find="        vch1.insert(vch1.end(), vch2.begin(), vch2.end());", replace="        if (vch2.size() > 520) vch1.insert(vch1.end(), vch2.begin(), vch2.end());", expect=["R17.7:both-operands:OP_CAT"]),
     dict(name="bitwise-length-test-one-sided", file="debugger/interpreter.cpp", find="if (vch1.size() != vch2.size()) return set_error(serror, SCRIPT_ERR_UNKNOWN_ERROR);", replace="if (vch1.size() > vch2.size()) return set_error(serror, SCRIPT_ERR_UNKNOWN_ERROR);", expect=["R17.8:equal-lengths"]),
